@@ -578,7 +578,9 @@ def resolve_runtime_selected(
         return None  # all outputs — no narrowing
     if isinstance(select, str):
         sel: tuple[str, ...] = (select,)
-    elif isinstance(select, list):
+    elif isinstance(select, (list, tuple)):
+        # (a tuple of names is used like a list of names by the output filter,
+        # so it is validated like one)
         sel = tuple(select)
     else:
         # Unexpected type — treat as "no narrowing" rather than raising, since
